@@ -543,6 +543,44 @@ int build(const Doc &d, cif_tp **out) {
     return CIF_OK;
 }
 
+// every number reachable in `real` (copies made by clone / list / table / packet operations included) must denote what its own text
+// denotes: its value and standard uncertainty are compared, bit for bit, with those of a value freshly parsed from that text
+std::string numbers_consistent(cif_value_tp *real, const std::string &what, int depth) {
+    if (!real || depth > 8) return "";
+    cif_kind_tp k = cif_value_kind(real);
+    if (k == CIF_NUMB_KIND) {
+        UChar *t = nullptr; if (cif_value_get_text(real, &t) != CIF_OK || !t) return "";
+        cif_value_tp *f = nullptr; std::string e;
+        if (cif_value_create(CIF_UNK_KIND, &f) == CIF_OK) {
+            UChar *t2 = udup((const char16_t *) t);
+            if (t2 && cif_value_parse_numb(f, t2) == CIF_OK) {
+                double a = 0, b = 0, sa = 0, sb = 0;
+                int r1 = cif_value_get_number(real, &a), r2 = cif_value_get_number(f, &b), r3 = cif_value_get_su(real, &sa), r4 = cif_value_get_su(f, &sb);
+                char buf[200];
+                if (r1 != CIF_OK || r3 != CIF_OK) e = what + ": number " + vh::uesc(ustr((const char16_t *) t)) + ": cif_value_get_number / get_su failed";
+                else if (r2 == CIF_OK && r4 == CIF_OK && (memcmp(&a, &b, sizeof a) != 0 || memcmp(&sa, &sb, sizeof sa) != 0)) {
+                    snprintf(buf, sizeof buf, " has value %.17g su %.17g, but its text denotes value %.17g su %.17g", a, sa, b, sb);
+                    e = what + ": number " + vh::uesc(ustr((const char16_t *) t)) + buf;
+                }
+            } else if (t2) ufree(t2);
+            cif_value_free(f);
+        }
+        ufree(t);
+        return e;
+    }
+    if (k == CIF_LIST_KIND) {
+        size_t n = 0; if (cif_value_get_element_count(real, &n) != CIF_OK) return "";
+        for (size_t i = 0; i < n; i++) { cif_value_tp *el = nullptr; if (cif_value_get_element_at(real, i, &el) == CIF_OK) { std::string e = numbers_consistent(el, what, depth + 1); if (!e.empty()) return e; } }
+    } else if (k == CIF_TABLE_KIND) {
+        const UChar **keys = nullptr; if (cif_value_get_keys(real, &keys) != CIF_OK || !keys) return "";
+        std::string e;
+        for (const UChar **q = keys; *q && e.empty(); q++) { cif_value_tp *el = nullptr; if (cif_value_get_item_by_key(real, *q, &el) == CIF_OK) e = numbers_consistent(el, what, depth + 1); }
+        ufree(keys);
+        return e;
+    }
+    return "";
+}
+
 const char *code_name(int rc) {
     // (an if-chain, not a switch: a header in which two codes collide must still compile, so that C20 can report it)
     {
